@@ -186,7 +186,7 @@ fn effect_exprs(depth: u32, full: bool) -> (Vec<E>, Vec<E>) {
     for d in 0..depth {
         // keep the operand pools small at deeper levels: the leaf plus one
         // representative of every construct of the previous level
-        let (pi, pb) = if d == 0 || full { (ints.clone(), bools.clone()) } else { (sample(&ints), sample(&bools)) };
+        let (pi, pb) = if d == 0 || (full && d == 1) { (ints.clone(), bools.clone()) } else { (sample(&ints), sample(&bools)) };
         let ni = int_forms(&pi, &pb, full || d == 0);
         let nb = bool_forms(&pi, &pb);
         ints.extend(ni);
